@@ -49,7 +49,7 @@ Definition struct_or_ptr_struct (t : ty) : bool := is_struct (strip_ptr t).
 
 Definition sup_elem (t : ty) : bool := scalar_or_ptr_scalar t || struct_or_ptr_struct t.
 Definition sup_key (t : ty) : bool :=
-  match strip_ptr t with TScalar SBool | TScalar SByte => false | TScalar _ => true | _ => false end.
+  match strip_ptr t with TScalar SByte => false | TScalar _ => true | _ => false end.
 
 Definition is_string_key (t : ty) : bool := match strip_ptr t with TScalar SString => true | _ => false end.
 (* does a value of this type contain a string / bytes / collection (node.hasc)? *)
@@ -83,7 +83,7 @@ Definition sup_field (t : ty) : bool :=
   | Some b => negb (is_bytes b) && sup_coll false b
   | None =>
     match t with
-    | TPtr t' => if is_bytes t' then false else sup_coll true t'
+    | TPtr t' => sup_coll true t'
     | _ => sup_coll true t
     end
   end.
